@@ -117,6 +117,24 @@ MUTANTS = {
         ('saio-sample-1', 'dashlive/mpeg/mp4.py', '        senc_sample_pos = senc.position + senc.samples[0].offset', '        senc_sample_pos = senc.position'),
     ],
     'C04': [
+        ('fio-w-3I', 'dashlive/utils/fio/field_writer.py', "value = struct.pack('>I', value)[1:]", "value = struct.pack('>I', value)[:3]"),
+        ('fio-r-H', 'dashlive/utils/fio/field_reader.py', "value = (d[0] << 8) + d[1]", "value = (d[0] << 8) + d[0]"),
+        ('fio-r-3I', 'dashlive/utils/fio/field_reader.py', "value = (d[0] << 16) + (d[1] << 8) + d[2]", "value = (d[0] << 16) + (d[1] << 16) + d[2]"),
+        ('fio-r-I-signed', 'dashlive/utils/fio/field_reader.py', "value = struct.unpack('>' + size, self.src.read(4))[0]", "value = struct.unpack('>i', self.src.read(4))[0]"),
+        ('fio-r-Q', 'dashlive/utils/fio/field_reader.py', "value = struct.unpack('>Q', self.src.read(8))[0]", "value = struct.unpack('>q', self.src.read(8))[0]"),
+        ('emsg-v1-time-32', 'dashlive/mpeg/mp4.py', "            d.write('Q', 'presentation_time')", "            d.write('I', 'presentation_time')"),
+        ('emsg-v0-parse-order', 'dashlive/mpeg/mp4.py', "            r.read('I', 'presentation_time_delta')\n            r.read('I', 'event_duration')", "            r.read('I', 'event_duration')\n            r.read('I', 'presentation_time_delta')"),
+        ('emsg-v1-strings-first', 'dashlive/mpeg/mp4.py', "        elif self.version == 1:\n            d.write('I', 'timescale')\n            d.write('Q', 'presentation_time')\n            d.write('I', 'event_duration')\n            d.write('I', 'event_id')\n            d.write('S0', 'scheme_id_uri')\n            d.write('S0', 'value')", "        elif self.version == 1:\n            d.write('S0', 'scheme_id_uri')\n            d.write('S0', 'value')\n            d.write('I', 'timescale')\n            d.write('Q', 'presentation_time')\n            d.write('I', 'event_duration')\n            d.write('I', 'event_id')"),
+        ('fio-w-S0-no-nul', 'dashlive/utils/fio/field_writer.py', "value = bytes(value, 'utf-8') + b'\\0'", "value = bytes(value, 'utf-8')"),
+        ('fio-r-S0-keeps-nul', 'dashlive/utils/fio/field_reader.py', "            while ord(d) != 0:\n                value += str(d, 'utf-8')\n                d = self.src.read(1)", "            while ord(d) != 0:\n                d = self.src.read(1)\n                value += str(d, 'utf-8')"),
+        ('mdhd-dur-32', 'dashlive/mpeg/mp4.py', "        w.write('I', 'timescale')\n        w.write(sz, 'duration')\n        chars", "        w.write('I', 'timescale')\n        w.write('I', 'duration')\n        chars"),
+        ('mdhd-lang-shift', 'dashlive/mpeg/mp4.py', "lang = (chars[0] << 10) + (chars[1] << 5) + chars[2]", "lang = (chars[0] << 10) + (chars[1] << 6) + chars[2]"),
+        ('mdhd-epoch', 'dashlive/utils/date_time.py', "    return int(delta.total_seconds())", "    return int(delta.total_seconds()) + 1"),
+        ('tenc-order', 'dashlive/mpeg/mp4.py', '        w.write(\'3I\', "is_encrypted")\n        w.write(\'B\', "iv_size")', '        w.write(\'B\', "iv_size")\n        w.write(\'3I\', "is_encrypted")'),
+        ('tenc-kid-15', 'dashlive/mpeg/mp4.py', '        w.write(16, "default_kid")', '        w.write(15, "default_kid")'),
+        ('pssh-kids-read', 'dashlive/mpeg/mp4.py', '                rv["key_ids"].append(r.get(16, \'kid\'))', '                rv["key_ids"].append(r.read(16, \'kid\'))'),
+        ('pssh-v0-kids', 'dashlive/mpeg/mp4.py', "        if self.version > 0:\n            w.write('I', 'num_keys', len(self.key_ids))", "        if self.key_ids:\n            w.write('I', 'num_keys', len(self.key_ids))"),
+        ('pssh-datalen', 'dashlive/mpeg/mp4.py', "            w.write('I', 'data_len', len(self.data))", "            w.write('I', 'data_len', len(self.data) + 1)"),
         ('mfhd-h', 'dashlive/mpeg/mp4.py', "        w.write('I', 'sequence_number')", "        w.write('H', 'sequence_number')"),
         ('mehd-swap', 'dashlive/mpeg/mp4.py', "        if self.version == 1:\n            w.write('Q', 'fragment_duration')\n        else:\n            w.write('I', 'fragment_duration')", "        if self.version == 0:\n            w.write('Q', 'fragment_duration')\n        else:\n            w.write('I', 'fragment_duration')"),
         ('trex-order', 'dashlive/mpeg/mp4.py', "        w.write('I', 'default_sample_duration')\n        w.write('I', 'default_sample_size')\n        w.write('I', 'default_sample_flags')\n\n", "        w.write('I', 'default_sample_size')\n        w.write('I', 'default_sample_duration')\n        w.write('I', 'default_sample_flags')\n\n"),
